@@ -15,7 +15,7 @@ ASSUMPTIONS = [
 
 MAIN = b'#diffx: version=1.0\n'
 A15 = [b'a', b'B', b'7', b'_', b'-', b'.', b'/', b' ', b',', b'=', b'#',
-       b':', b'+', b'\t', b'\xc3']
+       b':', b'+', b'\t', b'\xc3', b'%']
 A8 = [b'a', b'1', b'_', b'/', b' ', b',', b'=', b'+']
 
 
@@ -158,7 +158,7 @@ def strategy():
                          'latin1', 'UTF-8', 'utf8', 'U8', 'L1', 'ASCII',
                          'IBM037', 'utf_16', 'UTF-16LE', 'json', 'dos',
                          '9' * 25, '-0', '1e3', '0x10']))
-    junk = [b'+', b':', b'#', b' ', b',', b'=', b'\t', b'\xc3\xa9', b'\xff',
+    junk = [b'%', b'%s', b'%(x)s', b'{', b'{0}', b'\\', b'+', b':', b'#', b' ', b',', b'=', b'\t', b'\xc3\xa9', b'\xff',
             b'$', b'"', b'\r', b'\x00', b'a', b'9', b'/', b'.', b';', b'(']
 
     @hs.composite
@@ -298,8 +298,8 @@ def checks():
                  'added or renamed; non-trivial = at least one extra pair'),
         EnumCheck(
             'exhaustive', chunks, run_chunk, run_case=run_case,
-            rule='line "#.change:" + every tail over the 15-byte alphabet '
-                 '{a B 7 _ - . / SP , = # : + TAB 0xC3} up to length L15 and '
+            rule='line "#.change:" + every tail over the 16-byte alphabet '
+                 '{a B 7 _ - . / SP , = # : + TAB 0xC3 %} up to length L15 and '
                  'over {a 1 _ / SP , = +} up to length L8, placed after a '
                  'valid main header; accepted iff the full line matches the '
                  'grammar, options as parsed; non-trivial = tail contains '
